@@ -4,7 +4,7 @@ import PyxelModel.Generated.C13
 /-! Line-protocol glue for C13.
 
 `{"op":"run","kind":"pixel","rows":3,"cols":4,"ops":[["set",<operand>],["update",<operand>|null],
-  ["iadd",<operand>],["set3",<operand>],["adopt",<operand>|null],["emptyAll",bool],["empty"],["read"],["read3"],["dtype"],["shape"]]}`
+  ["iadd",<operand>],["set3",<operand>],["adopt",<operand>|null],["emptyAll",bool],["load",<operand>|null,sameType,sameGeo],["empty"],["read"],["read3"],["dtype"],["shape"]]}`
   → `{"model":[{"out":"ok"|"TypeError"|…,"obs":…,"state":null|{…},"inv":bool}, …]}` (one entry per op)
 `{"op":"eq","a":<box>,"b":<box>}` → `{"model":bool,"spec":bool}`; a box is
   `{"kind":…,"rows":…,"cols":…,"st":null|{"is3d":bool,"shape":[…],"dt":"…","tok":"…"}}`
@@ -60,6 +60,10 @@ def decOp (j : Json) : R Op := do
     | "emptyAll" => .ok (.emptyAll (← asBool v))
     | "adopt" => .ok (.adopt (← asOpt decOperand v))
     | s => .error s!"unknown unary op {s}"
+  | .arr #[n, v, t, g] =>
+    match ← asStr n with
+    | "load" => .ok (.load (← asOpt decOperand v) (← asBool t) (← asBool g))
+    | s => .error s!"unknown ternary op {s}"
   | _ => .error "op: expected [name] or [name, operand]"
 
 def encContent : Content → Json
